@@ -100,3 +100,22 @@ PROPS["C17"] = dict(
     level_note="Trusted: the specification function c17Spec in harness/props/c17.go (written from the property statement and the IPNI spec).",
     assumptions=["records with two contextual sets for the same context id are not generated (which one wins is not stated)"],
 )
+
+PROPS["C18"] = dict(
+    race=False,
+    shards={"quick": 8, "thorough": 16},
+    level="exploration",
+    design_ref="DESIGN.md §4 C18",
+    technique="runtime monitor: accept/reject oracle over all signer x named-provider pairs and located single-byte alterations of sealed envelopes",
+    rule=("signer-matrix: EVERY ordered pair (signing identity, named provider) over a pool of 15 identities (Ed25519, secp256k1, ECDSA, RSA-2048), "
+          "ingest and register request each, with seeded request fields: accepted iff signer == named, and then the fields read back equal those "
+          "given; alterations: for seeded requests of every key type, bit flips located inside the public_key / payload_type / payload / signature "
+          "fields of the envelope (found by parsing the protobuf) and at arbitrary bytes, skipped only when the independently parsed envelope is "
+          "semantically identical; cross-feeding of ingest<->register bytes; an envelope with the ingest payload type sealed for another domain; "
+          "generic mutants for panics. distinct_nontrivial = distinct (signer key type, named key type, same?) and (request, field, key type) tuples."),
+    floors={"quick": {"foreign_signer_pairs": 400, "alter_public_key": 1000, "alter_signature": 1000, "alter_payload": 1000, "cross_fed": 300}},
+    level_text=("Exploration: the read functions are driven with every signer/named-provider pair of a 15-identity pool over all libp2p key "
+                "types and with thousands of located alterations of real sealed requests; acceptance must coincide with 'unaltered and signed by "
+                "the named provider'."),
+    level_note="Trusted: libp2p's envelope protobuf (used to locate fields and to decide semantic identity of a mutant).",
+)
